@@ -1,4 +1,5 @@
 import GV.Lib.AssocMap
+import GV.Lib.CborLite
 /-
   C06 — multi-asset values.  Mirrors ledger/common/common.go:
     MultiAsset[T].{Asset, Add, Compare, normalize, Policies, Assets,
@@ -17,9 +18,8 @@ import GV.Lib.AssocMap
   (map of bytes → map of bytes → int | bignum | null), core Lean only.
 -/
 namespace GV.Model.MultiAsset
-open GV.Lib.AssocMap
+open GV.Lib.AssocMap GV.Lib.CborLite
 
-abbrev Bytes := List UInt8
 /-- `*big.Int`; `none` is the nil pointer. -/
 abbrev Amt := Option Int
 abbrev Inner := List (Bytes × Amt)
@@ -80,28 +80,6 @@ def compare (a b : MA) : Bool :=
 
 -- ------------------------------------------------------------------ CBOR
 
-/-- `w` bytes big-endian -/
-def beN : Nat → Nat → Bytes
-  | 0, _ => []
-  | w + 1, n => beN w (n / 256) ++ [UInt8.ofNat (n % 256)]
-
-/-- CBOR head, shortest form (n < 2^64) -/
-def head (major : Nat) (n : Nat) : Bytes :=
-  if n < 24 then [UInt8.ofNat (major * 32 + n)]
-  else if n < 256 then UInt8.ofNat (major * 32 + 24) :: beN 1 n
-  else if n < 65536 then UInt8.ofNat (major * 32 + 25) :: beN 2 n
-  else if n < 4294967296 then UInt8.ofNat (major * 32 + 26) :: beN 4 n
-  else UInt8.ofNat (major * 32 + 27) :: beN 8 n
-
-/-- minimal big-endian bytes of a natural (0 ↦ empty), with fuel -/
-def natBytesAux : Nat → Nat → Bytes → Bytes
-  | 0, _, acc => acc
-  | f + 1, n, acc => if n = 0 then acc else natBytesAux f (n / 256) (UInt8.ofNat (n % 256) :: acc)
-
-def natBytes (n : Nat) : Bytes := natBytesAux (n + 1) n []
-
-def encBytes (b : Bytes) : Bytes := head 2 b.length ++ b
-
 /-- `*big.Int` under BigIntConvertShortest; nil pointer = CBOR null -/
 def encAmt : Amt → Bytes
   | none => [0xf6]
@@ -113,12 +91,6 @@ def encAmt : Amt → Bytes
       let n := (-1 - i).toNat
       if n < 18446744073709551616 then head 1 n
       else 0xc3 :: encBytes (natBytes n)
-
-/-- bytewise lexicographic order -/
-def lexLE : Bytes → Bytes → Bool
-  | [], _ => true
-  | _ :: _, [] => false
-  | a :: as, b :: bs => if a < b then true else if b < a then false else lexLE as bs
 
 /-- SortCoreDeterministic: entries ordered by the bytes of their encoded key -/
 def keyLE {ν : Type} (x y : Bytes × ν) : Bool := lexLE (encBytes x.1) (encBytes y.1)
@@ -133,33 +105,6 @@ def encodeMA (m : MA) : Bytes :=
   head 5 m.length ++ ((sortKeys m).map (fun e => encBytes e.1 ++ encInner e.2)).flatten
 
 -- decoder (fxamacker default mode as configured by cbor.Decode, for this shape)
-
-def fromBE (b : Bytes) : Nat := b.foldl (fun acc x => acc * 256 + x.toNat) 0
-
-inductive Arg where
-  | val (n : Nat)
-  | indef
-deriving Repr, DecidableEq
-
-/-- read one head: (major, argument, rest); any width accepted (non-minimal too) -/
-def readHead : Bytes → Option (Nat × Arg × Bytes)
-  | [] => none
-  | b :: rest =>
-    let major := b.toNat / 32
-    let ai := b.toNat % 32
-    if ai < 24 then some (major, .val ai, rest)
-    else if ai = 31 then some (major, .indef, rest)
-    else if ai > 27 then none
-    else
-      let w := 2 ^ (ai - 24)
-      if rest.length < w then none
-      else some (major, .val (fromBE (rest.take w)), rest.drop w)
-
-/-- definite-length byte string -/
-def readBytes (b : Bytes) : Option (Bytes × Bytes) :=
-  match readHead b with
-  | some (2, .val n, rest) => if rest.length < n then none else some (rest.take n, rest.drop n)
-  | _ => none
 
 /-- a `*big.Int` value: uint, nint, tag 2/3 bignum (definite byte string), null -/
 def readAmt (b : Bytes) : Option (Amt × Bytes) :=
@@ -218,7 +163,7 @@ def fromEntries {ν : Type} (es : List (Bytes × ν)) : List (Bytes × ν) :=
 def hasDupKeys {ν : Type} (es : List (Bytes × ν)) : Bool := !(decide (keys es).Nodup)
 
 /-- Blake2b224 key: the decoder copies the byte string into a [28]byte (pads / truncates) -/
-def fix28 (b : Bytes) : Bytes := (b ++ List.replicate 28 0).take 28
+def fix28 (b : Bytes) : Bytes := fixN 28 b
 
 structure Decoded where
   value : MA
